@@ -28,6 +28,10 @@ def config(name):
         return cc.consts_of(**par, Scenario="pair", PNu=3, NObj=3, Targets={1, 2}, AddPairs={(1, 2)}, Numeric=False, MaxLen=7, MaxAdds=2, MaxAnc=2,
                             Kinds={"ps", "bs", "loss", "herald", "add", "setpar", "copyf", "unpack", "compress", "nonadj"}, HeraldNs={0, 1},
                             MaxHer=(0, 1, 0))
+    if name == "live_swaps":         # swap . parameter-valued component . swap sandwiches compressed while the parameter holds a boundary value (loss 0,
+        #                              reflectivity 1/2 -> 0 ...), the parameter moved AFTER the rewrite: the rewritten circuit must follow it
+        return cc.consts_of(NPar=2, ParKinds=("loss", "phase"), ParInit=(0, 0), ParVals={0, 1}, LossQs={1001}, Pids={1002}, Lqs={0}, ModeCap=2,
+                            NUs={3}, NObj=1, Targets={1}, Numeric=False, MaxLen=5, SwapLevel=1, Kinds={"swap", "loss", "ps", "setpar", "compress"})
     raise KeyError(name)
 
 
@@ -139,6 +143,9 @@ def run(tier):
                   dict(pctx, scenario="single", numeric=True), nontrivial_fn=uses_param)
     cc.dump_phase(chk, PID, "live_pair", config("live_pair"), ["UnitaryInv"], PROPS, MINE, 1.0 if th else 0.3, 1800,
                   dict(pctx, scenario="pair", numeric=True, pnu=3), nontrivial_fn=uses_param)
+    cc.dump_phase(chk, PID, "live_swaps", config("live_swaps"), ["InputModesInv"], PROPS, MINE, 1.0 if th else 0.5, 1800,
+                  dict(parkinds=("loss", "phase"), parinit=(0, 0), scenario="single", numeric=False), nontrivial_fn=uses_param,
+                  keep=lambda t: '"compress"' in t and t.count('"swap"') >= 2 and '"setpar"' in t and ('"loss"' in t or '"ps"' in t))
     cc.sim_phase(chk, PID, "live_single_deep", config("live_single_deep"), MINE, 12000 if th else 2000, 8,
                  dict(pctx, scenario="single", numeric=False), nontrivial_fn=uses_param)
     cc.sim_phase(chk, PID, "live_pair_deep", config("live_pair_deep"), MINE, 12000 if th else 2000, 9,
